@@ -21,6 +21,7 @@ import EPV.Lemmas.XDMParents
 import EPV.Lemmas.BuilderAnc
 import EPV.Lemmas.BuilderReget
 import EPV.Model.BuilderFocus
+import EPV.Lemmas.BuilderForest
 import EPV.Lemmas.BuilderLoop
 namespace EPV.C02
 open EPV.Builder EPV.XDM
@@ -496,84 +497,174 @@ theorem lxml_ignores_namespaces (i : Input) (hl : i.cfg.lxml = true) (ns : NsMap
   have h1 := fun t p => buildOne_lxml_namespaces n0 ns fr t p
   simp only [build, if_true, buildLxml, buildLxmlDoc, h1]
 
-/-! ## `fn:root` and `<<` relative to the context root -/
+/-! ## `fn:root` and `<<` relative to the context root (one tree) -/
 
-/-- `XPathContext.get_root(node)` with the built tree's root as context root: every node of the tree
-that exists (eager node, or lazy node whose owner has built it) is found by `iter_lazy` — so
-`fn:root($n)` is the tree root, which is the spec's answer. -/
-theorem get_root_built_node (i : Input) (root : PNode) (_h : build i = .ok root) (L : LazyState)
-    (r : Rec) (hr : r ∈ iter root) (hk : keep L r = true) :
-    ctxGetRoot root (some root.pos) L r.pos = some root.pos := by
-  rw [ctxGetRoot_root]
-  have : (((iter root).filter (keep L)).map (·.pos)).contains r.pos = true := by
-    rw [List.contains_iff_mem]
-    exact List.mem_map_of_mem (List.mem_filter.2 ⟨hr, hk⟩)
-  rw [if_pos this]
+/-- `XPathContext.get_root(node)` with the built tree's root as context root is the tree root for every
+node: `fn:root($n)` is the spec's answer. -/
+theorem get_root_built_node (root : PNode) (L : LazyState) (node : Nat) :
+    ctxGetRoot root (some root.pos) L node = some root.pos :=
+  ctxGetRoot_root root L node
 
-/-- KNOWN FINDING F02e (witness 1): a context without root (`XPathContext(item=node)`) makes
-`get_root` — hence `fn:root()` — return nothing for every node, whereas F&O 14.9 wants the root of the
-node's tree. -/
-theorem get_root_fails_item_only (tree : PNode) (L : LazyState) (node : Nat) :
-    ctxGetRoot tree none L node = none := rfl
+/-- `get_root` for ANY context root of the tree (document, top element, inner element) is total: the
+context root exactly for the nodes its `iter_lazy()` meets, the root of the tree for every other node
+of the tree (formerly finding F02e: the empty sequence). -/
+theorem get_root_any_context_root (root : PNode) (cr : Nat) (sub : PNode) (hsub : nodeAt root cr = some sub)
+    (L : LazyState) (node : Nat) :
+    ctxGetRoot root (some cr) L node =
+      if node ∈ ((iterNode none sub).filter (keep L)).map (·.pos) then some cr else some root.pos := by
+  unfold ctxGetRoot
+  simp only [hsub, lazyNode_filter, List.contains_iff_mem]
 
-/-- KNOWN FINDING F02e (witness 2): context root = the inner element `y` (position 4) of
-`<x><y/></x>`; for the outer element (position 2), which `..` reaches, `get_root` returns nothing. -/
-theorem get_root_fails_rooted_subtree :
+/-- a context without root (`XPathContext(item=node)`): the root of the node's tree (formerly `()`) -/
+theorem get_root_item_only (root : PNode) (L : LazyState) (node : Nat) :
+    ctxGetRoot root none L node = some root.pos := rfl
+
+/-- test on a literal: context root = inner element `y` (position 4) of `<x><y/></x>`: `root(.)` is the
+context root, `root(..)` the document -/
+example :
     let t : XTree := .elem "x" [] [] none [.elem "y" [] [] none [] none] none
     let i : Input := { cfg := { lxml := false, namespaces := [], fragment := none }, isTree := true,
                        prolog := [], top := some t, epilog := [], path := [] }
     ((build i).toOption.map fun r => (ctxGetRoot r (some 4) ⟨[], []⟩ 4, ctxGetRoot r (some 4) ⟨[], []⟩ 2))
-      = some (some 4, none) := by decide
+      = some (some 4, some 1) := by decide
 
-/-- `$a << $b` by walking `context.root.iter_document()` with the tree root as context root, nodes
-identified by position: for two different nodes of the tree it is `position(a) < position(b)`. -/
-theorem ctx_precedes_root (i : Input) (root : PNode) (h : build i = .ok root) (a b : Nat) (hab : a ≠ b)
-    (ha : a ∈ (iter root).map (·.pos)) (hb : b ∈ (iter root).map (·.pos)) :
-    ctxPrecedes root (some root.pos) false a b = some (decide (a < b)) ∧
-    ctxPrecedes root (some root.pos) true a b = some (decide (b < a)) := by
-  have hs := build_positions_strict i root h
-  have hw := walkPos_strict a b hab (iter root) hs ha hb
+/-- `$a << $b` / `$a >> $b` for two different nodes of one tree, for ANY context root or none: position
+comparison (formerly F02e: wrong or FOCA0002 when an operand was outside the context root's subtree);
+with `build_positions_strict` this is document order. -/
+theorem ctx_precedes_position (root : PNode) (cr : Option Nat) (a b : Nat) (hab : a ≠ b) :
+    ctxPrecedes root cr false a b = some (decide (a < b)) ∧
+    ctxPrecedes root cr true a b = some (decide (b < a)) := by
   have hne : (a == b) = false := by simpa using hab
-  have : iterNode none root = iter root := rfl
-  unfold ctxPrecedes
-  simp only [hne, Bool.false_eq_true, if_false, Option.toList_some, List.cons_append, walkRoots, nodeAt_root,
-    Option.bind_some, this, hw]
-  constructor
-  · simp
-  · by_cases hlt : a < b <;> simp [hlt] <;> omega
+  simp [ctxPrecedes, hne]
 
-/-- the same for ANY context root of the tree (document, top element or an inner element): as long as
-both operands lie in the context root's subtree, `<<` / `>>` are position comparison.  (Outside:
-known finding F02e.) -/
-theorem ctx_precedes_in_scope (i : Input) (root : PNode) (h : build i = .ok root) (cr : Nat) (sub : PNode)
-    (hsub : nodeAt root cr = some sub) (a b : Nat) (hab : a ≠ b)
-    (ha : a ∈ (iterNode none sub).map (·.pos)) (hb : b ∈ (iterNode none sub).map (·.pos)) :
-    ctxPrecedes root (some cr) false a b = some (decide (a < b)) ∧
-    ctxPrecedes root (some cr) true a b = some (decide (b < a)) := by
-  have hs : ((iterNode none sub).map (·.pos)).Pairwise (· < ·) :=
-    (build_positions_strict i root h).sublist (nodeAt_sublist root cr sub hsub)
-  have hw := walkPos_strict a b hab (iterNode none sub) hs ha hb
+/-! ## nodes of several trees (context tree, documents, variables, fn:doc, fn:parse-xml) -/
+
+open EPV.Forest in
+/-- CROSS-TREE ORDER.  A node is (tree key, position); the tree key is implementation-dependent and
+fixed while the trees are alive.  Whatever order the Python `set` enumerates a node set in (`l'` any
+permutation), sorting by `node_position` yields the ONE list of these nodes that is strictly
+increasing in (tree key, position): the result is deterministic — stable across the evaluation. -/
+theorem forest_sort_eq (s l' : List FNode) (hs : s.Pairwise keyLt) (hp : l'.Perm s) : fSort l' = s :=
+  fSort_eq s l' hs hp
+
+open EPV.Forest in
+/-- … the trees are kept apart (XDM 2.4: if a node of T1 precedes a node of T2, every node of T1 precedes
+every node of T2): along the result the tree keys never decrease, so between two nodes of one tree
+there is no node of another tree. -/
+theorem forest_sort_trees_apart (l : List FNode) :
+    (fSort l).Pairwise (fun a b => a.1 ≤ b.1) ∧
+    ∀ (xs ys zs : List FNode) (a b c : FNode), fSort l = xs ++ a :: ys ++ b :: zs ++ [c] → a.1 = c.1 → b.1 = a.1 := by
+  have hp := fSort_pairwise l
+  have h1 : (fSort l).Pairwise (fun a b => a.1 ≤ b.1) := by
+    refine hp.imp ?_
+    intro a b h
+    unfold keyLe at h
+    simp only [Bool.or_eq_true, Bool.and_eq_true, decide_eq_true_eq, beq_iff_eq] at h
+    omega
+  refine ⟨h1, ?_⟩
+  intro xs ys zs a b c heq hac
+  rw [heq] at h1
+  simp only [List.append_assoc, List.cons_append, List.pairwise_append, List.pairwise_cons,
+    List.mem_append, List.mem_cons] at h1
+  have hab : a.1 ≤ b.1 := h1.2.1.1 b (Or.inr (Or.inl rfl))
+  have hbc : b.1 ≤ c.1 := by
+    have := h1.2.1.2.2.1
+    exact this.1 c (Or.inr (by simp))
+  omega
+
+open EPV.Forest in
+/-- … and inside each tree the order is document order (positions never decrease; strictly increase for
+duplicate-free input) -/
+theorem forest_sort_within_tree (l : List FNode) (k : Nat) :
+    (((fSort l).filter (fun a => a.1 == k)).map (·.2)).Pairwise (· ≤ ·) := by
+  have hp := (fSort_pairwise l).filter (fun a => a.1 == k)
+  rw [List.pairwise_map]
+  refine List.Pairwise.imp_of_mem ?_ hp
+  intro a b ha hb h
+  have hak : a.1 = k := by simpa using (List.mem_filter.1 ha).2
+  have hbk : b.1 = k := by simpa using (List.mem_filter.1 hb).2
+  unfold keyLe at h
+  simp only [Bool.or_eq_true, Bool.and_eq_true, decide_eq_true_eq, beq_iff_eq] at h
+  omega
+
+open EPV.Forest in
+/-- `<<` / `>>` agree with that order: whenever an answer is given it is the comparison of the sort keys
+(positions inside one tree); an answer IS given for two nodes of one tree and whenever one of the trees is
+the context tree or a document variable; `$a << $b` and `$b << $a` are never both true. -/
+theorem forest_precedes_consistent (walked : List Nat) (a b : FNode) (hab : a ≠ b) :
+    (∀ r, fPrecedes walked false a b = some r → r = decide (keyLt a b)) ∧
+    (a.1 = b.1 → fPrecedes walked false a b = some (decide (a.2 < b.2))) ∧
+    (walked.contains a.1 = true ∨ walked.contains b.1 = true → fPrecedes walked false a b ≠ none) ∧
+    ¬ (fPrecedes walked false a b = some true ∧ fPrecedes walked false b a = some true) := by
   have hne : (a == b) = false := by simpa using hab
-  unfold ctxPrecedes
-  simp only [hne, Bool.false_eq_true, if_false, Option.toList_some, List.cons_append, walkRoots, hsub,
-    Option.bind_some, hw]
-  constructor
-  · simp
-  · by_cases hlt : a < b <;> simp [hlt] <;> omega
-
-/-- `get_root` for any context root: the context root exactly for the nodes its `iter_lazy()` meets -/
-theorem get_root_iff (root : PNode) (cr : Nat) (sub : PNode) (hsub : nodeAt root cr = some sub)
-    (L : LazyState) (node : Nat) :
-    ctxGetRoot root (some cr) L node = some cr ↔ node ∈ ((iterNode none sub).filter (keep L)).map (·.pos) := by
-  unfold ctxGetRoot
-  simp only [hsub, lazyNode_filter]
-  constructor
-  · intro h
+  have hne' : (b == a) = false := by simpa using (Ne.symm hab)
+  refine ⟨?_, ?_, ?_, ?_⟩
+  · intro r h
+    unfold fPrecedes at h
+    simp only [hne, Bool.false_eq_true, if_false] at h
     split at h
-    · rename_i hc; exact List.contains_iff_mem.1 hc
-    · cases h
-  · intro h
-    rw [if_pos (List.contains_iff_mem.2 h)]
+    · simpa using h.symm
+    · split at h
+      · simpa using h.symm
+      · cases h
+  · intro hk
+    unfold fPrecedes
+    simp only [hne, Bool.false_eq_true, if_false, hk, beq_self_eq_true, if_true, Option.some.injEq,
+      decide_eq_decide, keyLt]
+    constructor
+    · intro h; rcases h with h | h
+      · omega
+      · exact h.2
+    · intro h; exact Or.inr ⟨trivial, h⟩
+  · intro hw
+    unfold fPrecedes
+    simp only [hne, Bool.false_eq_true, if_false]
+    split
+    · simp
+    · have : (walked.contains a.1 || walked.contains b.1) = true := by
+        rcases hw with h | h
+        · rw [h]; rfl
+        · rw [h]; exact Bool.or_true _
+      rw [if_pos this]; simp
+  · rintro ⟨h1, h2⟩
+    have k1 : keyLt a b := by
+      have := (show ∀ r, fPrecedes walked false a b = some r → r = decide (keyLt a b) from by
+        intro r h
+        unfold fPrecedes at h
+        simp only [hne, Bool.false_eq_true, if_false] at h
+        split at h
+        · simpa using h.symm
+        · split at h
+          · simpa using h.symm
+          · cases h) true h1
+      simpa using this.symm
+    have k2 : keyLt b a := by
+      have := (show ∀ r, fPrecedes walked false b a = some r → r = decide (keyLt b a) from by
+        intro r h
+        unfold fPrecedes at h
+        simp only [hne', Bool.false_eq_true, if_false] at h
+        split at h
+        · simpa using h.symm
+        · split at h
+          · simpa using h.symm
+          · cases h) true h2
+      simpa using this.symm
+    unfold keyLt at k1 k2
+    omega
+
+open EPV.Forest in
+/-- the tree key is needed: sorted by position alone (the key before fix-c02-5) the list
+`(tree 2, 1), (tree 1, 2), (tree 2, 3)` is "in order" although tree 1 sits between two nodes of tree 2;
+KNOWN FINDING F02e (what is left of it): for two nodes of two trees that are neither the context tree
+nor document variables `<<` raises FOCA0002, and `fn:root` of a node of such a tree is empty when the
+context has a root — both pinned by the suite. -/
+theorem forest_witnesses :
+    [((2, 1) : FNode), (1, 2), (2, 3)].Pairwise (fun a b => posLe a b = true) ∧
+    ¬ [((2, 1) : FNode), (1, 2), (2, 3)].Pairwise (fun a b => a.1 ≤ b.1) ∧
+    fPrecedes [0] false (5, 2) (7, 1) = none ∧ fPrecedes [0] false (0, 9) (7, 1) = some true ∧
+    fGetRoot (some 0) false [] (7, 3) = none ∧ fGetRoot (some 0) false [7] (7, 3) = some (7, false) ∧
+    fGetRoot none false [] (7, 3) = some (7, false) := by
+  decide
 
 /-! ## operands are evaluated from the operator's focus -/
 
